@@ -32,3 +32,13 @@
 (assert (forall ((a ByteArr) (b ByteArr) (s Slice) (t Str))
   (! (=> (and (holds$ a s t) (agree8 a b s 0 (sl.len s))) (holds$ b s t))
      :pattern ((holds$ a s t) (holds$ b s t)))))
+; vsum(bs, j): total length of the first j slices of a [][]byte (S is the backing memory of bs: position -> slice header)
+; sig vsum$ : (Array Int Slice) Slice Int -> Int
+; sig vsum_unfold$ : (Array Int Slice) Slice Int -> Bool
+(declare-fun vsum$ ((Array Int Slice) Slice Int) Int)
+(assert (forall ((a (Array Int Slice)) (s Slice)) (! (= (vsum$ a s 0) 0) :pattern ((vsum$ a s 0)))))
+(declare-fun vsum_unfold$ ((Array Int Slice) Slice Int) Bool)
+(assert (forall ((a (Array Int Slice)) (s Slice) (j Int))
+  (! (and (vsum_unfold$ a s j)
+          (=> (> j 0) (= (vsum$ a s j) (+ (vsum$ a s (- j 1)) (sl.len (select a (+ (sl.off s) (- j 1))))))))
+     :pattern ((vsum_unfold$ a s j)))))
